@@ -1,6 +1,7 @@
 /* C binding: straight calls into libyaep.  Compiled as C.  */
 #include <stddef.h>
 #include "yaep.h"
+#include "hashtab.h"
 #include "bind.h"
 const char *vy_binding (void) { return "c"; }
 void *vy_create (void) { return yaep_create_grammar (); }
@@ -22,3 +23,5 @@ int vy_parse (void *g, vy_read_token_t rt, vy_syntax_error_t se, vy_alloc_t a, v
 { return yaep_parse ((struct grammar *) g, rt, se, a, f, root, amb); }
 void vy_free_tree (struct yaep_tree_node *root, vy_free_t f, vy_termcb_t cb)
 { yaep_free_tree (root, f, cb); }
+long vy_all_searches (void) { return (long) (unsigned) get_all_searches (); }
+long vy_all_collisions (void) { return (long) (unsigned) get_all_collisions (); }
